@@ -12,7 +12,7 @@
       - the readiness word (event/interest, signal_pending_write, arm_writable)
         of lib/src/lib.rs with an edge-triggered kernel. *)
 From Coq Require Import String.
-From Coq Require Import List Arith NArith Bool Lia.
+From Coq Require Import List Arith NArith ZArith Bool Lia.
 Import ListNotations.
 
 Definition byte := N.
@@ -75,6 +75,55 @@ Fixpoint h2_deframe (fs : list dframe) : option (list byte) :=
   | f :: r =>
     if f_end f then match r with [] => Some (f_payload f) | _ => None end
     else match h2_deframe r with Some b => Some (f_payload f ++ b) | None => None end
+  end.
+
+(** * The H2 block converter on body blocks (lib/src/protocol/mux/converter.rs,
+    H2BlockConverter::call, arms Block::Chunk and Block::Flags{end_stream}) driven
+    by kawa.prepare: blocks are popped until the converter says stop. *)
+Inductive blk := BChunk (d : list byte) | BEnd.
+
+Fixpoint h2_prepare (fuel : nat) (window : Z) (max : nat) (blocks : list blk) : list dframe * list blk * Z :=
+  match fuel with
+  | O => ([], blocks, window)
+  | S f =>
+    match blocks with
+    | [] => ([], [], window)
+    | BEnd :: r =>
+      (* end_stream without end_header: an empty DATA frame carrying END_STREAM *)
+      let '(fs, bl, w) := h2_prepare f window max r in (mkF [] 0 true :: fs, bl, w)
+    | BChunk d :: r =>
+      let len := length d in
+      if (Z.of_nat len <=? window)%Z && (len <=? max) then
+        (* the window is wide enough to send the entire chunk *)
+        let '(fs, bl, w) := h2_prepare f (window - Z.of_nat len)%Z max r in (mkF d 0 false :: fs, bl, w)
+      else if (0 <? window)%Z then
+        (* split the chunk to fit the window / the frame size *)
+        let pl := Z.to_nat (Z.min (Z.of_nat max) window) in   (* min(max_frame_size, window) *)
+        let before := firstn pl d in
+        let after := skipn pl d in
+        let blocks' := match after with [] => r | _ => BChunk after :: r end in
+        let w' := (window - Z.of_nat pl)%Z in
+        if (Z.of_nat max <? window)%Z then
+          let '(fs, bl, w2) := h2_prepare f w' max blocks' in (mkF before 0 false :: fs, bl, w2)
+        else ([mkF before 0 false], blocks', w')
+      else
+        (* flow-control stall: the chunk goes back to the queue *)
+        ([], blocks, window)
+    end
+  end.
+
+Definition body_of (blocks : list blk) : list byte :=
+  flat_map (fun b => match b with BChunk d => d | BEnd => [] end) blocks.
+Definition payload_of (fs : list dframe) : list byte := flat_map f_payload fs.
+
+(** one prepare per window of the schedule (the write path consumes the output in between) *)
+Fixpoint h2_rounds (fuel : nat) (max : nat) (windows : list Z) (blocks : list blk) : list (list dframe * Z) * list blk :=
+  match windows with
+  | [] => ([], blocks)
+  | w :: ws =>
+    let '(fs, bl, w') := h2_prepare fuel w max blocks in
+    let '(rest, final) := h2_rounds fuel max ws bl in
+    ((fs, w') :: rest, final)
   end.
 
 (** * The relay: ingest / convert / flush *)
